@@ -340,7 +340,9 @@ def emtSpecs (raw : List Nat) (first : Int) (zt : ZT) (s : EMT) : Option (EMT ×
   let maxLookback := s.npre
   let maxLookahead := s.nsamp - s.npre
   let iFirst0 := s.next - first
-  let (s1, iFirst) := if iFirst0 < maxLookback then ({ s.reset with sentinel := true }, maxLookback) else (s, iFirst0)
+  let (s1, iFirst) := if iFirst0 < maxLookback then
+      ({ s.reset with sentinel := true }, if s.enableZT then maxLookback + 1 else maxLookback)
+    else (s, iFirst0)
   let iLast : Int := (raw.length : Int) - 1 - maxLookahead
   match emtLoop raw first zt s1 iLast maxLookahead iFirst s1.t s1.u s1.v [] (raw.length + 2) with
   | none => none
@@ -410,17 +412,19 @@ def secondaries (c : Chan) (frames : List Int) : Option (List Rec) :=
 
 /-! ### Control operations -/
 
-/-- `DataStreamProcessor.ConfigureTrigger`; the Bool = returned an error -/
+/-- `DataStreamProcessor.ConfigureTrigger`; the Bool = returned an error (nothing changed) -/
 def configureTrigger (c : Chan) (ts : TS) (emt : EMT) : Chan × Bool :=
   let e1 := { emt with nsamp := c.nsamp, npre := c.npre }
-  let c1 := { c with ts := ts, lastTrig := 0, emt := e1 }
-  if ts.edgeMulti && !e1.valid then (c1, true) else ({ c1 with emt := e1.reset }, false)
+  if ts.edgeMulti && !e1.valid then (c, true)
+  else ({ c with ts := ts, lastTrig := 0, emt := e1.reset }, false)
+
+/-- `DataStreamProcessor.checkPulseLengths` -/
+def checkLengths (c : Chan) (nsamp npre : Int) : Bool :=
+  c.ts.edgeMulti && !({ c.emt with nsamp := nsamp, npre := npre } : EMT).valid
 
 /-- `DataStreamProcessor.ConfigurePulseLengths` -/
 def configureLengths (c : Chan) (nsamp npre : Int) : Chan × Bool :=
-  let e0 := if c.nsamp ≠ nsamp ∨ c.npre ≠ npre then c.emt.reset else c.emt
-  let e1 := { e0 with nsamp := nsamp, npre := npre }
-  let c1 := { c with nsamp := nsamp, npre := npre, emt := e1 }
-  if c.ts.edgeMulti && !e1.valid then (c1, true) else ({ c1 with emt := e1.reset }, false)
+  if checkLengths c nsamp npre then (c, true) else
+  ({ c with nsamp := nsamp, npre := npre, emt := { c.emt.reset with nsamp := nsamp, npre := npre } }, false)
 
 end DastardV.Trig
